@@ -388,14 +388,9 @@ fn check_tape(tape: &[u8], gates: &Gates, stats: &mut Stats, counting: bool) -> 
         gates.take_wanted();
     }
     if lexical_error {
-        // the junk must really be no token for the lexer (else the case says nothing)
-        let unlexable = crate::panicx::catch(|| !ironplc_parser::tokenize_program(&doc.text, &ironplc_dsl::core::FileId::from_string("d.st"), &Default::default()).1.is_empty()).unwrap_or(true);
-        if !unlexable {
-            if counting {
-                stats.class("doc.lexical-error.junk-is-a-token(skipped)");
-            }
-            return Ok(());
-        }
+        // the junk is no token of IEC 61131-3 wherever it stands outside comments and strings, and
+        // the generator put it there: the document is unlexable by construction (asking the lexer
+        // under test would make the oracle agree with whatever it does)
         if !resp["result"].is_null() || resp.get("error").is_some() {
             if resp.get("error").is_none() {
                 return Err(fail("partial-list", "the document contains text that is not a valid token, but the result is not null".into()));
